@@ -125,6 +125,11 @@ func (env *c10Env) check(rep *report.Report, class, text string) bool {
 				for n := 0; c.IsValid() && n < 10; n++ {
 					c.Next()
 				}
+				// index-cursor driven evaluation: providers over 0, 1 and 2 index values, present and absent
+				for _, vals := range [][]string{{"a"}, {"a", "b"}, {"nope1", "nope2"}, {}} {
+					_, _, _ = w.people.QueryWithCursorC(tx, w.people.IteratorMatchingAnyOf(w.rolesIdx, vals), wq)
+					_, _, _ = w.people.QueryWithCursorC(tx, w.people.IteratorMatchingAllOf(w.rolesIdx, vals), wq)
+				}
 			}()
 			return nil
 		})
